@@ -8,7 +8,12 @@ def kind(s):
     return " ".join(t[:2]) if t and t[0] == "err" else (t[0] if t else "")
 
 
+signature_override = None
+
+
 def signature(msg):
+    if signature_override is not None and "is bound to slot" in msg:
+        return signature_override(msg)
     m = re.search(r": (\w+) .*? gave (.*?) but the abstract tree model says (.*)$", msg)
     if m:
         return "%s:%s->%s" % (m.group(1), kind(m.group(2)).replace(" ", "_"), kind(m.group(3)).replace(" ", "_"))
